@@ -200,7 +200,7 @@ func c11State(c *Ctx, n *Node) []Violation {
 }
 
 func checkC11(e *RunEnv) *CheckResult {
-	msgs := []string{"m", "fix: x", "a\tb", "two\nlines", "s\nthree word line", "\nbody three words here", "100% %s done", strings.Repeat("word ", 1000), strings.Repeat("seventy thousand ", 4200), " lead", "trail ", "é", "x: y: z"}
+	msgs := []string{"m", "fix: x", "a\tb", "two\nlines", "s\nthree word line", "\nbody three words here", "100% %s done", strings.Repeat("word ", 1000), strings.Repeat("seventy thousand ", 4200), " lead", "trail ", "é", "x: y: z", forgedJournalMessage}
 	spec := &Spec{
 		Seeds: []Seed{{"S0", seedS0()}, {"S2", seedS2()}, {"chain12", seedChain(12)}, {"chain140", seedChain(140)}},
 		Depth: e.pick(3, 4),
